@@ -136,7 +136,7 @@ def shrink(eng, rec, max_tests=400):
 
 
 def write_replay(eng, rec, tag=""):
-    d = os.path.join(VERIF, "replays")
+    d = os.environ.get("VERIF_REPLAY_DIR") or os.path.join(VERIF, "replays")
     os.makedirs(d, exist_ok=True)
     path = os.path.join(d, "%s-%s%s.json" % (eng.PROPERTY, rec["run_seed"], tag))
     out = {
